@@ -594,7 +594,7 @@ theorem inv_after_rm {s s' : KS} (h : Inv s) (name : Path) (info : KW)
 
 /-- `register(EV_DELETE)`, `unix.Close`, `watches.remove` in sequence -/
 theorem tr_rmCore (name : Path) (info : KW) {β : Type} (k : Bool → M β) (R : β → KS → Prop)
-    (hk : ∀ b, Tr Inv (k b) R) (kerr : FsErr → M β) (hkerr : ∀ e, Tr Inv (kerr e) R) :
+    (hk : ∀ b, Tr Inv (k b) R) (kerr : FsErr → M β) :
     Tr (fun s => Inv s ∧ alLookup ((alLookup name s.path).getD 0) s.wd = some info)
       (do
         match ← registerDelete info.wd with
@@ -631,7 +631,7 @@ theorem rm_ok (fuel : Nat) : ∀ name unwatch, Tr Inv (rm fuel name unwatch) (fu
     split
     · exact Tr.pure _ (fun s h => h.1)
     · rename_i hok
-      refine Tr.weaken (tr_rmCore (clean name) info _ (fun _ => Inv) ?_ _ ?_) ?_ (fun _ _ h => h)
+      refine Tr.weaken (tr_rmCore (clean name) info _ (fun _ => Inv) ?_ _) ?_ (fun _ _ h => h)
       · intro isDir
         split
         · refine Tr.bind ((pure_watchesInDir _).tr _) ?_
@@ -646,7 +646,6 @@ theorem rm_ok (fuel : Nat) : ∀ name unwatch, Tr Inv (rm fuel name unwatch) (fu
               intro _; exact Tr.pure _ (fun s h => h)
           · intro _; exact Tr.pure _ (fun s h => h)
         · exact Tr.pure _ (fun s h => h)
-      · intro e; exact Tr.pure _ (fun s h => h)
       · intro s h
         exact ⟨h.1, h.2.1 (by simpa using hok)⟩
 
@@ -1039,10 +1038,10 @@ theorem rm_found (fuel : Nat) (name : Path) (unwatch : Bool) (w : W) (h : Inv w.
       AllEnt (fun k e => k ≠ info.wd ∧ e.name ≠ clean name) (rm (fuel + 1) name unwatch w).2.s := by
   have core := tr_rmCore' (clean name) info (fun _ _ => True) (rmChildren fuel (clean name) unwatch)
     (fun _ s => Inv s ∧ AllEnt (fun k e => True ∧ e.name ≠ clean name ∧ k ≠ info.wd) s)
-    (fun b => rmChildren_ent_ok fuel (clean name) unwatch b _) (fun e => pure (some (.fs e))) w ⟨h, hi, fun _ _ _ => trivial⟩
+    (fun b => rmChildren_ent_ok fuel (clean name) unwatch b _) (fun e => rmErr e info (clean name)) w ⟨h, hi, fun _ _ _ => trivial⟩
   have e : rm (fuel + 1) name unwatch w = (do
         match ← registerDelete info.wd with
-        | .error e => pure (some (.fs e))
+        | .error e => rmErr e info (clean name)
         | .ok () => do
           closeFd info.wd
           let isDir ← watchesRemove info.wd (clean name)
